@@ -404,7 +404,7 @@ func (ex *executor) applyContract(st *state, c *Contract, key string, names []st
 	}
 	// frame
 	pure := c.Pure
-	if !pure {
+	if !pure || len(c.Assigns) > 0 {
 		if c.HasAssigns && !c.AssignsAll {
 			env.st = pre
 			var locs []*locRef
